@@ -103,6 +103,25 @@ def tailify(stmts):
         elif isinstance(st, ast.With):
             st = copy.copy(st)
             st.body = tailify(st.body)
+        elif isinstance(st, ast.Try) and not st.orelse and not st.finalbody and _has_return(st):
+            rest = stmts[i + 1:]
+            # try: ...  except E: return A   followed by `return <constant or name>`: evaluating that return raises nothing, so it may
+            # stand at the end of the try body (and of the handlers that fall through) as well
+            if len(rest) == 1 and isinstance(rest[0], ast.Return) and (rest[0].value is None or isinstance(rest[0].value, (ast.Constant, ast.Name))):
+                st = copy.copy(st)
+                st.body = tailify(st.body)
+                if not _terminates(st.body):
+                    st.body = st.body + [clone(rest[0])]
+                hs = []
+                for h in st.handlers:
+                    h = copy.copy(h)
+                    h.body = tailify(h.body)
+                    if not _terminates(h.body):
+                        h.body = h.body + [clone(rest[0])]
+                    hs.append(h)
+                st.handlers = hs
+                out.append(st)
+                return out
         out.append(st)
     return out
 
@@ -344,6 +363,21 @@ class Inliner:
             if rep is not None:
                 out.extend(rep)
                 continue
+            # `if [not] helper(args): ...` with a helper of several statements: its result is first bound to a fresh local (which the
+            # statement inliner then replaces by the helper's body; fold_flag_branches moves the branches to where the result is decided)
+            if isinstance(st, ast.If) and depth > 0:
+                t_ = st.test.operand if isinstance(st.test, ast.UnaryOp) and isinstance(st.test.op, ast.Not) else st.test
+                if isinstance(t_, ast.Call):
+                    h_, _recv = self.resolve(t_, local_defs)
+                    if h_ is not None and not isinstance(h_, ast.Lambda) and self.expr_body(h_) is None and self.eligible(h_):
+                        tmp = '_t%d' % next(_counter)
+                        asg = ast.copy_location(ast.Assign(targets=[ast.Name(id=tmp, ctx=ast.Store())], value=t_), st)
+                        rep = self.try_statement(asg, local_defs, depth)
+                        if rep is not None:
+                            st = copy.copy(st)
+                            nm = ast.copy_location(ast.Name(id=tmp, ctx=ast.Load()), t_)
+                            st.test = ast.copy_location(ast.UnaryOp(op=ast.Not(), operand=nm), st.test) if t_ is not st.test else nm
+                            out.extend(rep)
             rep = self.try_generator_loop(st, local_defs, depth)
             if rep is not None:
                 out.extend(rep)
@@ -494,10 +528,86 @@ class Inliner:
         return fn
 
 
+def fold_flag_branches(fnode):
+    """`<compound statement whose every falling-through end assigns flag = <constant>>` directly followed by `if [not] flag: A else: B`,
+    the flag (an inliner temporary) used nowhere else: the branch the constant selects moves to each of those ends, the test and the
+    assignments disappear.  (break / continue in A and B stay in the same loop; the compound statement is a try without else / finally,
+    or an if.)"""
+    fn = clone(fnode)
+    counts = {}
+    for n in ast.walk(fn):
+        if isinstance(n, ast.Name):
+            counts[n.id] = counts.get(n.id, 0) + 1
+
+    def ends(st, flag):
+        """the statement lists whose last statement is `flag = const`, for every end of st that falls through; None when some end
+        does not end that way"""
+        blocks = []
+        if isinstance(st, ast.Try) and not st.orelse and not st.finalbody:
+            blocks = [st.body] + [h.body for h in st.handlers]
+        elif isinstance(st, ast.If) and st.orelse:
+            blocks = [st.body, st.orelse]
+        else:
+            return None
+        out = []
+        for b in blocks:
+            if _terminates(b):
+                continue
+            last = b[-1] if b else None
+            if isinstance(last, ast.Assign) and len(last.targets) == 1 and norm(last.targets[0]) == flag and isinstance(last.value, ast.Constant):
+                out.append(b)
+            elif isinstance(last, (ast.Try, ast.If)):
+                sub = ends(last, flag)
+                if sub is None:
+                    return None
+                out.extend(sub)
+            else:
+                return None
+        return out
+
+    def rewrite(body):
+        out = []
+        i = 0
+        while i < len(body):
+            st = body[i]
+            for fld in ('body', 'orelse', 'finalbody'):
+                if isinstance(getattr(st, fld, None), list) and not isinstance(st, (ast.FunctionDef, ast.ClassDef)):
+                    setattr(st, fld, rewrite(getattr(st, fld)))
+            for h in getattr(st, 'handlers', []) or []:
+                h.body = rewrite(h.body)
+            nxt = body[i + 1] if i + 1 < len(body) else None
+            if isinstance(nxt, ast.If):
+                t = nxt.test
+                neg = isinstance(t, ast.UnaryOp) and isinstance(t.op, ast.Not)
+                nm = t.operand if neg else t
+                if isinstance(nm, ast.Name) and nm.id.startswith('_t'):
+                    flag = nm.id
+                    blocks = ends(st, flag)
+                    n_assign = len(blocks) if blocks else 0
+                    if blocks and counts.get(flag) == n_assign + 1:
+                        for fld in ('body', 'orelse'):
+                            setattr(nxt, fld, rewrite(getattr(nxt, fld)))
+                        for b in blocks:
+                            val = bool(b[-1].value.value) != neg
+                            chosen = nxt.body if val else nxt.orelse
+                            b[-1:] = [clone(x) for x in chosen] or [ast.copy_location(ast.Pass(), b[-1])]
+                        out.append(st)
+                        i += 2
+                        continue
+            out.append(st)
+            i += 1
+        return out
+    fn.body = rewrite(fn.body)
+    ast.fix_missing_locations(fn)
+    return fn
+
+
 def inline_helpers(func, depth=2, only=None, skip=()):
     """(new FunctionDef, [names of inlined helpers])"""
     inl = Inliner(func, depth=depth, only=only, skip=skip)
     node = inl.run()
+    if any(isinstance(n, ast.Name) and n.id.startswith('_t') and n.id[2:].isdigit() for n in ast.walk(node)):
+        node = fold_flag_branches(node)
     return node, inl.inlined
 
 
